@@ -110,6 +110,27 @@ def _call(modname, fname, chunk):
     return ("ok", ctx, aux)
 
 
+def _call_echo(modname, fname, big, small):
+    """Order-of-evaluation probe: evaluate the chunk of the largest inputs, then - in the same
+    process - the chunk of the smallest ones again.  Only violations of the second run are
+    returned (its coverage was already counted by the ordinary run); a library that keeps state
+    between calls at module or class level (a memo that grows with the largest input seen, a
+    hoisted scratch buffer) answers differently here than in the ordinary ascending order."""
+    st, c, aux = _call(modname, fname, big)
+    if st != "ok":
+        return (st, c, aux)
+    st, c, aux = _call(modname, fname, small)
+    if st != "ok":
+        return (st, c, aux)
+    out = Ctx()
+    out.viol = c.viol
+    for ent in out.viol.values():
+        for v in ent["first"]:
+            v["_chunk"] = ("__echo__", (fname, big, small))
+    out.counters["order_probe_evaluations"] = c.evals
+    return ("ok", out, None)
+
+
 _RERUN_CODE = r'''
 import os, pickle, sys
 sys.path.insert(0, sys.argv[2])
@@ -119,7 +140,10 @@ if alt:
 from mc import runner
 modname, fname, chunk, sig = pickle.load(open(sys.argv[1], "rb"))
 for k in (1, 2):
-    st, c, aux = runner._call(modname, fname, chunk)
+    if fname == "__echo__":
+        st, c, aux = runner._call_echo(modname, *chunk)
+    else:
+        st, c, aux = runner._call(modname, fname, chunk)
     if st == "ok" and sig in c.viol:
         print("REPRODUCED-IN-FRESH-PROCESS run=%d" % k)
         break
@@ -187,14 +211,19 @@ class Runner(object):
                 out[i] = aux
             return out
         pool = self._pool()
-        futs = {pool.submit(_call, self.mod.__name__, fname, chunks[i]): i for i in order}
+        futs = {}
+        if len(chunks) >= 4 and not getattr(self.mod, "NO_ORDER_PROBE", False):
+            # one extra task: [largest chunk; smallest chunk] in one process (see _call_echo)
+            futs[pool.submit(_call_echo, self.mod.__name__, fname, chunks[-1], chunks[0])] = None
+        futs.update({pool.submit(_call, self.mod.__name__, fname, chunks[i]): i for i in order})
         try:
             for f in concurrent.futures.as_completed(futs):
                 st, c, aux = f.result()
                 if st != "ok":
                     raise HarnessError(c)
                 self.ctx.merge(c)
-                out[futs[f]] = aux
+                if futs[f] is not None:
+                    out[futs[f]] = aux
         except concurrent.futures.process.BrokenProcessPool as e:
             raise HarnessError("worker process died: %s" % e)
         return out
@@ -278,7 +307,10 @@ def run_check(modname, tier="quick", seed=0, replay=None):
                 import pickle
                 fname, chunk = pickle.loads(base64.b64decode(case["chunk_pickle_b64"]))
                 for _ in (1, 2):
-                    st, c, aux = _call(mod.__name__, fname, chunk)
+                    if fname == "__echo__":
+                        st, c, aux = _call_echo(mod.__name__, *chunk)
+                    else:
+                        st, c, aux = _call(mod.__name__, fname, chunk)
                     if st != "ok":
                         raise HarnessError(c)
                     runner.ctx.merge(c)
